@@ -139,6 +139,7 @@ def run(ctx):
             ctx.bad(R_term, "visible_block_lists|shape", pv.where, "marker literal (%s) or the parser's `if .. { break }` not recognised" % marks, "shape changed")
         else:
             free = sorted({y["res"]["local"] for y in hirq.walk(brk["c"]) if y.get("k") == "path" and "local" in y["res"]})
+            wconsts = wmo.consts()
             tyname = None
             for y in hirq.walk(brk["c"]):
                 if y.get("k") == "path" and y["res"].get("local") in free:
@@ -147,7 +148,7 @@ def run(ctx):
                 stop = set()
                 for v in range(65536):
                     val = v - 65536 if (tyname or "").startswith("i") and v >= 32768 else v
-                    if _bv15(brk["c"], {free[0]: val}, {}):
+                    if _bv15(brk["c"], {free[0]: val, "__consts__": wconsts}, {}):
                         stop.add(v)
                 if stop == {marks[0]}:
                     ctx.ok(R_term, {"marker": "0x%04X" % marks[0], "operand_type": tyname, "stops_at": ["0x%04X" % x for x in sorted(stop)]})
